@@ -54,8 +54,29 @@ class Combo:
         return add(va, vb)
 
 
+def complete(mapping, e, rng, gdim):
+    """give every coefficient / constant of e that has no data yet a random smooth field / value (UFL's point evaluation
+    does not terminate on an unmapped coefficient)"""
+    import ufl
+    from ufl.algorithms.analysis import extract_type
+    for t in extract_type(e, ufl.classes.Coefficient):
+        if t not in mapping:
+            mapping[t] = Field(rng, t.ufl_shape, gdim)
+    for t in extract_type(e, ufl.classes.Constant):
+        if t not in mapping:
+            def nest(sh):
+                return tuple(nest(sh[1:]) for _ in range(sh[0])) if sh else rng.uniform(0.5, 1.5)
+            mapping[t] = nest(tuple(t.ufl_shape))
+    return mapping
+
+
 def evaluate(e, x, mapping):
     """all components of a closed expression as a flat list of floats (derivatives expanded first by UFL itself)"""
+    import ufl
+    from ufl.algorithms.analysis import extract_type
+    for t in list(extract_type(e, ufl.classes.Coefficient)) + list(extract_type(e, ufl.classes.Constant)):
+        if t not in mapping:
+            raise KeyError("no data for %s" % t)
     with warnings.catch_warnings():
         warnings.simplefilter("ignore")
         return [float(e(x, mapping, c)) for c in comps(e.ufl_shape)]
